@@ -143,4 +143,27 @@ Proof.
   rewrite FQ by auto. eapply crash_removeold; eauto.
 Qed.
 
+
+(* rename: whatever prefix of the renames was executed, a run of another DAG is found intact, and a run of the renamed DAG
+   is found intact under exactly one of the old and the new name (P1) *)
+Theorem crash_rename0 es d d' fs' : premises loc dirhash D days K (es ++ [EOp (ORename d d')]) ->
+  In fs' (crash_states loc dirhash (y_h (yrun loc dirhash sys_init es)) (ORename d d')) ->
+  forall a, In a (h_runs (sp_state es)) -> In (a_dag a) D -> a_req a <> "" ->
+    (a_dag a <> d -> fpayload (q_find loc dirhash fs' (a_dag a) (a_req a)) = last_opt (a_sts a))
+    /\ (a_dag a = d ->
+         (fpayload (q_find loc dirhash fs' d (a_req a)) = last_opt (a_sts a) /\ fpayload (q_find loc dirhash fs' d' (a_req a)) = None)
+         \/ (fpayload (q_find loc dirhash fs' d (a_req a)) = None /\ fpayload (q_find loc dirhash fs' d' (a_req a)) = last_opt (a_sts a))).
+Proof.
+  intros P IN a Ia Id Nr. destruct (crash_state_l1 es _ fs' P IN) as [s' [IN' [E [TR FQ]]]].
+  destruct (premises_snoc es _ P) as [Pes [Oin [Ook Ohk]]].
+  pose proof (reach_inv loc dirhash D days K OK KC es Pes) as I.
+  set (ys := fold_left (ysstep loc dirhash) es ysys_init) in *.
+  destruct I as [_ _ _ _ [L R] Iok Iseen _ _].
+  destruct Oin as [Od Od'].
+  destruct (crash_rename rname (rpath loc dirhash) (ys_h ys) (sp_state es) L (ys_seen ys) d d' s' R Iok Iseen Ook Ohk IN' a Ia Nr) as [A B].
+  split.
+  - intros Nd. rewrite FQ by auto. apply A; auto.
+  - intros Dd. rewrite !FQ by auto. apply B; auto.
+Qed.
+
 End C.
